@@ -301,6 +301,26 @@ func count(bus *eventbus.EventBus, t int) (int, bool) {
 
 // RunSeq: sequential history against the model.
 func RunSeq(c *SeqCase) *vkit.Outcome {
+	// a sequential history waits for nothing but its own (trivial) handlers:
+	// one that is still running after 20 s - twice - is stuck inside the bus
+	var res *vkit.Outcome
+	if timedOut, _ := vkit.Watchdog(20*time.Second, func() { res = runSeqBoth(c) }); !timedOut {
+		return res
+	}
+	again, dump := vkit.Watchdog(20*time.Second, func() { res = runSeqBoth(c) })
+	if !again {
+		res.Class("slow_first_run_not_reproduced")
+		return res
+	}
+	if len(dump) > 6000 {
+		dump = dump[:6000]
+	}
+	o := &vkit.Outcome{}
+	o.Failf("", "a single-goroutine history of subscribes and publishes (handlers only record calls, subscribe, unsubscribe or panic) did not finish within 20 s, twice: a Publish or Wait never returned. Handlers %+v steps %+v; goroutines:\n%s", c.Handlers, c.Steps, dump)
+	return o
+}
+
+func runSeqBoth(c *SeqCase) *vkit.Outcome {
 	if !c.DetachObs {
 		return runSeq(c, true)
 	}
